@@ -98,7 +98,7 @@ structure RespState where
 deriving Repr
 
 def Response.new : RespState :=
-  { phase := .statusLine, statusCode := 200, reasonPhrase := str "OK", headers := [], body := [], trailer := [] }
+  { phase := .statusLine, statusCode := 200, reasonPhrase := kOk, headers := [], body := [], trailer := [] }
 
 structure RespCfg where
   hl : Option Nat
@@ -123,14 +123,14 @@ def parseStatusLine (t : Tree) (line : Bytes) : Except Cat (Nat × Bytes) :=
 /-- response.rs:412-455: move the decoded body in and rewrite the framing headers -/
 def dechunkRewrite (t : Tree) (s : RespState) (c : ChunkState) : RespState :=
   let framing (n : Bytes) : Bool :=
-    nameEq n (str "Content-Length") || nameEq n (str "Transfer-Encoding") || nameEq n (str "Trailer")
+    nameEq n kContentLength || nameEq n kTransferEncoding || nameEq n kTrailer
   let trailer := if t.repaired then c.trailer.filter fun h => !framing h.name else c.trailer
   let hs := trailer.foldl addHeader s.headers
-  let te := (headerTokens hs (str "Transfer-Encoding")).dropLast
-  let hs := if te.isEmpty then removeHeader hs (str "Transfer-Encoding")
-            else setHeader hs (str "Transfer-Encoding") (joinWith (if t.repaired then [COMMA, SP] else [SP]) te)
-  let hs := addHeader hs ⟨str "Content-Length", natToDec c.buffer.length⟩
-  let hs := removeHeader hs (str "Trailer")
+  let te := (headerTokens hs kTransferEncoding).dropLast
+  let hs := if te.isEmpty then removeHeader hs kTransferEncoding
+            else setHeader hs kTransferEncoding (joinWith (if t.repaired then [COMMA, SP] else [SP]) te)
+  let hs := addHeader hs ⟨kContentLength, natToDec c.buffer.length⟩
+  let hs := removeHeader hs kTrailer
   { s with body := c.buffer, headers := hs, phase := .statusLine }
 
 def Response.parseLoop (cfg : RespCfg) : Nat → RespState → Bytes → Nat → List Reserve →
@@ -156,7 +156,7 @@ def Response.parseLoop (cfg : RespCfg) : Nat → RespState → Bytes → Nat →
         match status with
         | .incomplete => .ok { internal := .incomplete, st := s, consumed := consumed }
         | .complete =>
-          match headerValue hs (str "Content-Length") with
+          match headerValue hs kContentLength with
           | some v =>
             match parseNumber cfg.tree 10 v with
             | none => .err .InvalidContentLength
@@ -165,7 +165,7 @@ def Response.parseLoop (cfg : RespCfg) : Nat → RespState → Bytes → Nat →
               let r ← vecReserve "response.body" s.body.length want
               .ok { internal := .completePart, st := { s with phase := .fixedBody cl }, consumed := consumed, reserves := [r] }
           | none =>
-            if hasHeaderToken hs (str "Transfer-Encoding") (str "chunked") then
+            if hasHeaderToken hs kTransferEncoding kChunked then
               .ok { internal := .completePart, st := { s with phase := .chunkedBody ChunkState.new }, consumed := consumed }
             else .ok { internal := .completeWhole, st := s, consumed := consumed }
       | .statusLine =>
